@@ -883,6 +883,16 @@ class _ArithExpr:
       return self.name(n.id)
     if isinstance(n, ast.Attribute) and isinstance(n.value, ast.Name):
       return self.name(("self_" + n.attr) if n.value.id == "self" else n.attr)
+    if isinstance(n, ast.Attribute) and isinstance(n.value, ast.Attribute):
+      return self.name(n.attr)       # a.b.attr: the field `attr` of a nested record of arrays
+    if isinstance(n, ast.Subscript):
+      # pure broadcasting subscripts (x[:, None], x[None, :], x[:, None, None]) do not change the entry that is read
+      sl = n.slice.elts if isinstance(n.slice, ast.Tuple) else [n.slice]
+      pure = all((isinstance(e, ast.Constant) and e.value is None) or
+                 (isinstance(e, ast.Slice) and e.lower is None and e.upper is None and e.step is None) for e in sl)
+      if pure:
+        return self.expr(n.value)
+      raise TranslationError(f"subscript {ast.unparse(n)[:40]}")
     if isinstance(n, ast.UnaryOp) and isinstance(n.op, ast.USub):
       return f"(-{self.expr(n.operand)})"
     if isinstance(n, ast.BinOp):
@@ -911,8 +921,26 @@ SPE_SPECS = [
 ]
 
 
+GRAD_SPECS = [
+  ("grad_sqrt_var", "libsigopt/compute/predictor.py", "HasPredictor", "compute_core_components", ("assign", "grad_sqrt_var"), []),
+  ("ei_grad", "libsigopt/compute/expected_improvement.py", "ExpectedImprovement", "_evaluate_grad_at_point_list_normalized", ("return",), []),
+  ("penalized_grad", "libsigopt/compute/expected_improvement.py", "ExpectedImprovementWithPenalty", "_evaluate_grad_at_point_list_penalty", ("return",),
+   ["ei = self._evaluate_at_point_list_normalized(core_components)", "ei_grad = self._evaluate_grad_at_point_list_normalized(core_components)"]),
+  ("aei_grad_penalty", "libsigopt/compute/expected_improvement.py", "AugmentedExpectedImprovement", "_evaluate_penalty", ("assign", "grad_penalty"),
+   ["adjusted_var = core_components.var + self.noise_variance", "sqrt_noise_to_signal_ratio = numpy.sqrt(self.noise_variance / adjusted_var)"]),
+  ("pf_chain_rule", "libsigopt/compute/probabilistic_failures.py", "ProbabilisticFailures", "_compute_grad_probability_of_success", ("assign", "chain_rule"), []),
+  ("pf_logistic_grad", "libsigopt/compute/probabilistic_failures.py", "ProbabilisticFailures", "_compute_grad_probability_of_success", ("return",), []),
+  ("pf_cdf_grad", "libsigopt/compute/probabilistic_failures.py", "ProbabilisticFailuresCDF", "_compute_grad_probability_of_success", ("return",),
+   ["cc = failure_components.core_components"]),
+  ("parzen_grad", "libsigopt/compute/sigopt_parzen_estimator.py", "SigOptParzenEstimator", "evaluate_grad_expected_improvement", ("return",),
+   ["lpdf_g = self.evaluate_lower_density(points_to_sample, grad=True)", "gpdf_g = self.evaluate_greater_density(points_to_sample, grad=True)"]),
+  ("cost_scaled_value", "libsigopt/compute/multitask_acquisition_function.py", "MultitaskAcquisitionFunction", "joint_function_gradient_eval", ("assign", "af_per_cost"), []),
+]
+
+
 def generate_acq(repo, gen_dir):
   status = _generate_exprs(repo, gen_dir, ACQ_SPECS, "Acq", "pyfun_acq", "acquisition formulas")
+  status.update(_generate_exprs(repo, gen_dir, GRAD_SPECS, "AcqGrad", "pyfun_grad", "analytic gradient formulas"))
   status.update(_generate_exprs(repo, gen_dir, SPE_SPECS, "Spe", "pyfun_spe", "Parzen-estimator formulas"))
   return status
 
@@ -959,7 +987,8 @@ def _generate_exprs(repo, gen_dir, specs, fname, prefix, what_text):
           raise TranslationError(f"{what[1]} is not assigned exactly once by a plain assignment in {meth}")
         node = hits[0].value
       else:
-        rets = [st for st in ast.walk(fn) if isinstance(st, ast.Return)]
+        rets = [st for st in ast.walk(fn) if isinstance(st, ast.Return)
+                and not (isinstance(st.value, ast.Constant) and st.value.value is None)]
         if len(rets) != 1 or rets[0].value is None:
           raise TranslationError(f"{meth} does not have exactly one return")
         node = rets[0].value
